@@ -721,6 +721,33 @@ theorem noRewire_of_check {env : Env} {fuel : Nat} {steps : List PassStep}
   · exact (hno h2).elim
   · exact h2
 
+
+/-- `NoMissInPass` implies its exact check (used to refute it on a concrete pass) -/
+def noMissB (env : Env) (fuel : Nat) (steps : List PassStep) : Bool :=
+  steps.all fun st =>
+    match st.r.graph.get (.asset st.key), st.s.lookup st.key with
+    | some node, some c => !(node.typed && c.dyn) || reloadHit env fuel st.s st.key
+    | _, _ => true
+
+theorem noMiss_check_of {env : Env} {fuel : Nat} {steps : List PassStep}
+    (h : NoMissInPass env fuel steps) : noMissB env fuel steps = true := by
+  unfold noMissB
+  rw [List.all_eq_true]
+  intro st hst
+  cases hg : st.r.graph.get (.asset st.key) with
+  | none => rfl
+  | some node =>
+    cases hc : st.s.lookup st.key with
+    | none => rfl
+    | some c =>
+      simp only []
+      cases ht : node.typed with
+      | false => rfl
+      | true =>
+        cases hd : c.dyn with
+        | false => rfl
+        | true => simp only [Bool.and_self, Bool.not_true, Bool.false_or]; exact h st hst node c ⟨hg, ht, hc, hd⟩
+
 /-! ## `run_update` -/
 
 /-- the steps of the pass `runUpdate env fuel s r` performs -/
